@@ -462,3 +462,9 @@ func genAccept(r *rng.R, rt RouteDecl, all []RouteDecl) string {
 	}
 	return r.Pick(Medias)
 }
+
+// FullOpts is the widest generator for a router: every documented template form, media, conditions, adversarial paths.
+func FullOpts(router string) Opts {
+	return Opts{Router: router, AllowRe: true, AllowSuf: router == "curly", AllowWild: true, AllowVerb: router == "curly",
+		RootVars: true, RootRe: true, Conds: true, Media: true, MaxSvcs: 4, MaxRoutes: 6, Adversarial: true}
+}
